@@ -1,9 +1,9 @@
-\* C18 procedure machine: parallel on per-task copies (even without taking the initial values back): every property holds in every interleaving
+\* C18 procedure machine: closed loop, parallel on per-task copies: every property holds in every interleaving
 CONSTANTS
     Mode = "par"
     RestorePars = TRUE
     RestoreY0 = FALSE
-    Cyclic = FALSE
+    Cyclic = TRUE
     EarlyRestoreY0 = FALSE
 INIT Init
 NEXT Next
